@@ -15,7 +15,13 @@ import (
 // repository, gitconfig, scan and renderers are replaced at their boundaries
 // and capture the effective settings.
 
+type vpRootRec struct {
+	name string
+	oid  git.OID
+}
+
 type vpCaptured struct {
+	rootRecs    []vpRootRec
 	threshold   sizes.Threshold
 	nameStyle   sizes.NameStyle
 	scanStyle   sizes.NameStyle
@@ -96,11 +102,14 @@ func vpInstallMainStubs(cfg *vpConfig, cap *vpCaptured, probe string) {
 		if name == "bad" {
 			return git.NullOID, errors.New("bad revision")
 		}
-		return git.NullOID, nil
+		return vpResolve(name), nil
 	})
 	vp_Stub("github.com/github/git-sizer/sizes.ScanRepositoryUsingGraph", func(ctx context.Context, repo *git.Repository, roots []sizes.Root, ns sizes.NameStyle, pm meter.Progress) (sizes.HistorySize, error) {
 		cap.scanStyle = ns
 		cap.roots = len(roots)
+		for _, r := range roots {
+			cap.rootRecs = append(cap.rootRecs, vpRootRec{r.Name(), r.OID()})
+		}
 		_, isNone := pm.(meter.Progress)
 		_ = isNone
 		cap.progress = pm != meter.NoProgressMeter
@@ -464,6 +473,69 @@ func VPH_mainSelection() {
 	vp_Assert(cap.walkProbe == want, "traversed iff the last matching option includes it; none given: all references, or none when ROOTs are given")
 	if withRoot {
 		vp_Assert(cap.roots == 1, "the ROOT argument is a root of the scan")
+	}
+	vp_Reach("end")
+}
+
+
+// vpResolve is the scripted `git rev-parse`: several spellings may name one object.
+func vpResolve(name string) git.OID {
+	var b [20]byte
+	switch name {
+	case "one", "refs/heads/one", "one^0":
+		b[0] = 1
+	case "two", "refs/heads/two":
+		b[0] = 2
+	case "three":
+		b[0] = 3
+	default:
+		return git.NullOID
+	}
+	o, _ := git.OIDFromBytes(b[:])
+	return o
+}
+
+// VPH_mainRoots (C08, C01): every ROOT argument becomes a root of the scan
+// under its own spelling and with the object that spelling resolves to; an
+// object named twice may be fed once or twice, but never under another name.
+func VPH_mainRoots() {
+	if vp_Native() {
+		vp_Reach("end")
+		return
+	}
+	menu := []string{"one", "refs/heads/one", "one^0", "two", "refs/heads/two", "three"}
+	n := 1 + vp_Choice("nroots", vp_Param("maxroots"))
+	var args []string
+	for i := 0; i < n; i++ {
+		args = append(args, menu[vp_Choice("root", len(menu))])
+	}
+	cfg := &vpConfig{consulted: map[string]int{}}
+	cap := &vpCaptured{}
+	vpInstallMainStubs(cfg, cap, "refs/heads/x")
+	var stdout, stderr bytes.Buffer
+	err := mainImplementation(context.Background(), &stdout, &stderr, args)
+	vp_Assert(err == nil, "valid ROOTs are accepted")
+	if err != nil {
+		return
+	}
+	for _, r := range cap.rootRecs {
+		vp_Assert(r.oid == vpResolve(r.name), "a root carries the object that its own name resolves to (its description must resolve to the cited object)")
+		given := false
+		for _, a := range args {
+			if a == r.name {
+				given = true
+			}
+		}
+		vp_Assert(given, "roots are named as on the command line")
+	}
+	for _, a := range args {
+		found := false
+		for _, r := range cap.rootRecs {
+			if r.oid == vpResolve(a) {
+				found = true
+			}
+		}
+		vp_Assert(found, "every ROOT's object is a root of the scan")
 	}
 	vp_Reach("end")
 }
